@@ -88,12 +88,13 @@ def nontrivial(probes):
 
 
 def run_case(case, ctx):
-    _run_pass(case, ctx, None)
+    shared = {}
+    _run_pass(case, ctx, None, shared)
     if case.get("second_pass"):
-        _run_pass(case, ctx, case["second_pass"])
+        _run_pass(case, ctx, case["second_pass"], shared)
 
 
-def _run_pass(case, ctx, mutation):
+def _run_pass(case, ctx, mutation, shared):
     mc = model.normalise(case["complete"]["rankings"])
     mi = model.normalise(case["incomplete"]["rankings"])
     dc = build_dataset(case["complete"])
@@ -124,7 +125,12 @@ def _run_pass(case, ctx, mutation):
         s = sched.Sched.from_spec(cf["sched"])
         sched.set_current(s)
         try:
-            okb, alg = call(build_alg, spec)
+            if label in shared:
+                okb, alg = True, shared[label]
+            else:
+                okb, alg = call(build_alg, spec)
+                if okb:
+                    shared[label] = alg
             if okb:
                 okp, ans = call(alg.is_scoring_scheme_relevant_when_incomplete_rankings, sc)
         finally:
@@ -149,7 +155,7 @@ def _run_pass(case, ctx, mutation):
         # (c) complete data is never refused --------------------------------------------------------------
         if comp_is_complete:
             try:
-                out = run_alg(spec, dc, sc, one, cf["sched"])
+                out = run_alg(spec, dc, sc, one, cf["sched"], alg=alg)
                 ctx.event("complete-run", label, out.brief(), out.picks)
                 if out.kind != "returned":
                     ctx.violate("C14/complete-refused", f"{out.kind}: {exc_label(out.exc)}: {str(out.exc)[:160]}",
@@ -168,7 +174,7 @@ def _run_pass(case, ctx, mutation):
         # (b)+(d) incomplete data vs. the declaration -------------------------------------------------------
         if inc_is_incomplete and declared is not None:
             try:
-                out = run_alg(spec, di, sc, one, cf["sched"])
+                out = run_alg(spec, di, sc, one, cf["sched"], alg=alg)
             except Discard:
                 ctx.probe("discarded_stub_capacity")
                 continue
